@@ -81,6 +81,14 @@ SEEDS = {
  "C02d": dict(property="C02", needs="a worker dies holding processes_management_lock (idle-timeout path) while the manager thread is busy (done-callback): the manager now takes that lock before collecting the sentinels and never sees the death"),
  "C19d": dict(property="C19", needs="an executor constructed at depth == LOKY_MAX_DEPTH (or at depth >= 1 under fork) without submitting in the same try: the depth check moved from the constructor to the spawn site, creation succeeds and the first submit raises"),
  "C20d": dict(property="C20", needs="kill-type lifecycle while the feeder thread is blocked writing a large task into a full call-queue pipe: the kill flag is reset once honoured, join_executor_internals then skips closing the reader end (the F21 repair), feeder thread + 2 fds + 3 semaphores leak per lifecycle"),
+ "C04e": dict(property="C04", needs="a done-callback (registered before the future completes) raising KeyboardInterrupt: it is re-raised by Future._invoke_callbacks and kills the manager thread (normal task) or the feeder thread (unsendable task)"),
+ "C06e": dict(property="C06", needs="shutdown(wait=False, kill_workers=True) while every worker is busy and the caller keeps its reference: the manager is only woken when wait=True, the forced shutdown happens when a task happens to finish"),
+ "C09e": dict(property="C09", needs="a worker crash with several futures pending; a caller told by one of them (TerminatedWorkerError) calls get_reusable_executor while the manager is still failing the others: the pool is flagged broken only after the futures were failed (reverse of C02a)"),
+ "C13e": dict(property="C13", needs="a named semaphore (or tracked folder) whose name contains ':' and an owner that cannot clean up itself (SIGKILL): the tracker's request parser uses partition instead of rpartition and drops the registration"),
+ "C14e": dict(property="C14", needs="Event.set() called twice without a clear() in between, then clear(): set() no longer drains the flag first, the flag semaphore counts the sets"),
+ "C15e": dict(property="C15", needs="a task submitted under a pickler different from the worker's own default and a result whose pickling depends on the back-end (lambda): the worker restores its previous pickler before the result is sent"),
+ "C16e": dict(property="C16", needs="a read of a double-underscore attribute (__name__, __defaults__, user data, an explicitly fetched special method) on the wrapper: __getattr__ refuses to forward such names"),
+ "C18e": dict(property="C18", needs="a growing resize of an idle reusable executor with an initializer that fails in the added worker: the manager is woken before the new workers are spawned and goes back to sleep without their sentinels (reverse order of the F3 repair)"),
  "C20b": dict(property="C20", needs="kill-type lifecycle + worker with descendants one of which vanishes during the kill: kill_process_tree returns early, the worker is neither killed nor joined (child, fd, semaphore accumulate)"),
 }
 DETECTED = json.load(open(os.path.join(ROOT, "seeded", "detected.json"))) if os.path.exists(os.path.join(ROOT, "seeded", "detected.json")) else {}
